@@ -55,6 +55,11 @@ CONFIG = dict(
         "Rbgp.Mon2.Props.dump_peer_index_consistent",
         "Rbgp.Mon2.Props.dump_entry_count_consistent",
     ],
+    # the oracle is vacuous outside Spec.inDomain / DSpec.inDomain: the driver's `stats` mode counts judged vs
+    # out-of-domain cases (and the record kind that causes it) into evidence.coverage.oracle_clause_counts;
+    # `judged` must be non-zero (expect_judged) and the out-of-domain share is meant to stay below the bound
+    # (generator: ~8-12 %; check reads only expect_judged, the bound is for the reader of the evidence)
+    oracle_stats=True, expect_judged=["judged"], max_out_of_domain_share=0.15,
     harness=dict(kind="daemon", test="event::verif_event::c19::verif_main"),
     profiles=["debug"],
     n_quick=3000, n_thorough=12000, shards=12,
